@@ -127,3 +127,17 @@ impl Out {
         self.w.flush().unwrap();
     }
 }
+
+/// `recv_from` that ignores datagrams which do not come from `peer_port` on loopback: other test processes on this host
+/// (another check's flooding clients have exited while their server still answers the queued requests) can hit an
+/// ephemeral port that one of our sockets has since been given. A stray datagram is not an observation of the
+/// implementation under test. Returns the first datagram from the expected port, or the socket's error (timeout /
+/// WouldBlock) when none is left.
+pub fn recv_from_port(sock: &std::net::UdpSocket, buf: &mut [u8], peer_port: u16) -> std::io::Result<(usize, std::net::SocketAddr)> {
+    loop {
+        let (n, a) = sock.recv_from(buf)?;
+        if a.port() == peer_port {
+            return Ok((n, a));
+        }
+    }
+}
